@@ -609,18 +609,21 @@ class World:
         self.loop._scheduled.clear()
 
     class _Outside:
-        def __init__(self, w: "World") -> None:
+        def __init__(self, w: "World", foreign_loop: bool = False) -> None:
             self.w = w
+            self.foreign_loop = foreign_loop
 
         def __enter__(self) -> None:
-            events._set_running_loop(None)
+            # a foreign thread either runs no event loop at all, or one of its own (an asyncio application that uses the
+            # blocking API from its own loop's thread)
+            events._set_running_loop(VLoop() if self.foreign_loop else None)
 
         def __exit__(self, *exc: Any) -> None:
             events._set_running_loop(self.w.loop)
 
-    def outside(self) -> "World._Outside":
-        """Code in this block runs like a foreign thread: no running loop."""
-        return World._Outside(self)
+    def outside(self, foreign_loop: bool = False) -> "World._Outside":
+        """Code in this block runs like a foreign thread: no running loop, or another loop than the instance's."""
+        return World._Outside(self, foreign_loop)
 
     # -- building ------------------------------------------------------------------------------
     def next_sock_idx(self) -> int:
